@@ -1,7 +1,9 @@
 from common import T_COMMON
 
 CFG = dict(
-    theorems=["edit_history_wf", "decode_encode", "norm_same", "encode_idempotent", "encode_nodes_perm", "sorted_unique", "lexicographic_misorders"],
+    theorems=["edit_history_wf", "decode_encode", "norm_same", "encode_idempotent", "encode_nodes_perm", "sorted_unique",
+              "natural_order_ok", "decode_encode_natural", "lexicographic_misorders", "lexicographic_order_breaks",
+              "file_payload_concatenated"],
     modules=["PolyVerif.Props.C12"],
     streams=[dict(name="c12", n=dict(quick=150, thorough=4000)),
              dict(name="c12file", n=dict(quick=20, thorough=400))],
